@@ -203,6 +203,8 @@ def run_one(text, raw_on, file_on, suppress=(), spell="bool"):
 def eval_case(ctx, case):
     from docutils import nodes
 
+    if case.get("kind") == "rst_host":
+        return eval_rst_host(ctx, case)
     C = constructs()
     text, used = build(case)
     res = {}
@@ -290,6 +292,60 @@ def eval_case(ctx, case):
     return len(raw_constructs) + len(file_constructs) >= 2
 
 
+def eval_rst_host(ctx, case):
+    """The documented docutils route for Markdown fragments: a reStructuredText HOST document includes the Markdown file with
+    ``:parser: myst_parser.docutils_``.  The host has no MyST processing of its own, so the fragment's parse alone must honour raw_enabled."""
+    import io
+
+    from docutils import nodes
+    from docutils.core import publish_doctree, publish_string
+
+    C = constructs()
+    text, used = build(case)
+    frag = os.path.join(TMP, "hostfrag.md")
+    with open(frag, "w", encoding="utf8") as f:
+        f.write(text)
+    host = "Host title\n==========\n\nhost paragraph\n\n.. include:: hostfrag.md\n   :parser: myst_parser.docutils_\n\nHOSTEND paragraph\n"
+    src = os.path.join(TMP, "host.rst")
+    res = {}
+    for raw_on in (True, False):
+        ws = io.StringIO()
+        kw = drive.overrides(ws, myst_enable_extensions=EXT, myst_substitutions={"rawsub": "<x-sentinel-777 a=\"1\">", "rawsub_inline": "<x-sentinel-778 a=\"1\">"}, raw_enabled=raw_on, file_insertion_enabled=True, doctitle_xform=False,
+                             myst_suppress_warnings=list(case.get("suppress", ())))
+        try:
+            doc = publish_doctree(host, source_path=src, settings_overrides=kw)
+            out = publish_string(host, source_path=src, writer_name="html5", settings_overrides={**kw, "embed_stylesheet": False})
+        except Exception as e:  # noqa: BLE001
+            sig = core.exc_signature(e)
+            ctx.violation(f"rst-host:raises:{sig['type']}:{sig['myst'] or sig['inner']}", f"raw_enabled={raw_on}: an rST host including the Markdown fragment raised {sig['type']}: {sig['msg']}", case, {"text": text, **sig})
+            return False
+        res[raw_on] = (doc, ws.getvalue(), out if isinstance(out, str) else out.decode("utf8", "replace"))
+    raw_constructs = [(nm, n) for nm, n in used if C[nm][1] in ("raw", "both", "rawnode")]
+    doc, w, out = res[True]
+    if "ENDMARKER" not in doc.astext():
+        ctx.count("rst_host:fragment_not_included")
+        return False
+    vis = sum(1 for nm, n in raw_constructs if f"<x-sentinel-{n}" in out or (nm == "in_substitution" and "<x-sentinel-777" in out))
+    ctx.count("rst_host:control:raw_sentinel_visible_when_enabled", vis)
+    doc, w, out = res[False]
+    d = {"text": text, "host": host, "warnings": w[-1500:]}
+    raws = list(doc.findall(nodes.raw))
+    if raws:
+        r = raws[0]
+        ctx.violation("rst-host:raw-disabled:raw-node-survives", f"{len(raws)} raw node(s) in the doctree of an rST host that includes the Markdown fragment, with raw_enabled=False; first: format={r.get('format')} text={r.astext()[:60]!r}", case, d)
+    m = re.search(r"<x-sentinel-\d+", out)
+    if m:
+        ctx.violation("rst-host:raw-disabled:sentinel-markup-in-output", f"unescaped sentinel markup {m.group(0)!r} in the html5 output of the rST host with raw_enabled=False", case, d)
+    nref = len(re.findall(r"disabled|deactivated", w))
+    if nref < len(raw_constructs):
+        ctx.violation("rst-host:raw-disabled:refusal-not-reported", f"{nref} refusal warnings for {len(raw_constructs)} raw-carrying constructs in the included fragment", case, d)
+    if "ENDMARKER" not in doc.astext() or "HOSTEND" not in doc.astext():
+        ctx.violation("rst-host:raw-disabled:rest-of-document-lost", "the trailing marker paragraphs are missing", case, d)
+    ctx.count("rst_host_raw_disabled_runs")
+    ctx.count("rst_host_raw_constructs_refused", len(raw_constructs))
+    return True
+
+
 def run_shard(ctx):
     R = ctx.rng
     names = sorted(constructs())
@@ -306,6 +362,8 @@ def run_shard(ctx):
                 eval_case(ctx, case)
                 ctx.case(repr(case), True)
                 n += 1
+            eval_rst_host(ctx, {"kind": "rst_host", "items": [[nm, "top"]]})
+            ctx.case(("rst_host", nm), True)
     ctx.subrun("each_construct_alone", exhaustive=True, constructs=len(names) if ctx.shard == 0 else 0, cases=n)
     nr = 130 if quick else 6000
     for i in range(nr):
@@ -313,6 +371,9 @@ def run_shard(ctx):
         case = {"kind": "combo", "items": items, "suppress": R.choice([[], [], ["myst"], ["myst.*"], ["myst.strikethrough", "docutils"], ["myst", "ref", "docutils.*"]]), "spell": R.choice(["bool", "bool", "int", "none-off", f"conf:{R.choice(['general', 'parsers', 'myst parser'])}:{R.randrange(4)}"])}
         nt = eval_case(ctx, case)
         ctx.case(repr(case), bool(nt))
+        if i % 4 == 0:
+            eval_rst_host(ctx, {"kind": "rst_host", "items": items, "suppress": case["suppress"]})
+            ctx.case(("rst_host", repr(items)), True)
         if i < 2:
             ctx.sample(case)
         if (i & 0x7) == 0 and ctx.out_of_time():
@@ -322,7 +383,7 @@ def run_shard(ctx):
 def finalize(m, tier):
     c = m["counters"]
     for k, lo in (("raw_disabled_runs", 1500), ("file_disabled_runs", 1500), ("raw_constructs_refused", 3000), ("file_constructs_refused", 1000), ("control:raw_sentinel_visible_when_enabled", 1500), ("control:file_content_inserted_when_enabled", 500),
-                  ("control:open_events_when_enabled", 500)):
+                  ("control:open_events_when_enabled", 500), ("rst_host_raw_disabled_runs", 200), ("rst_host:control:raw_sentinel_visible_when_enabled", 400)):
         if c.get(k, 0) < lo:
             m["inconclusive"].append(f"monitor observed only {c.get(k, 0)} '{k}' events (< {lo})")
     vac = [k for k in c if k.startswith(("control:raw_sentinel_not_visible:", "control:file_content_not_inserted:"))]
